@@ -369,12 +369,12 @@ def parse_mir(text):
                 m = FN_RE.match('fn %s() -> %s {' % (pm.group(1), pm.group(2)))
         if not m and line.startswith('const ') and line.endswith(';') and ' = const ' in line and 'promoted[' not in line:
             # one-line crate constant: `const NAME: TY = const VALUE;`
-            cm = re.match(r'^const (.+?): ([^=]+?) = const (.+);$', line)
+            cm = re.match(r'^const (.+): ([^:=]+?) = const (.+);$', line)
             if cm:
                 SIMPLE_CONSTS[cm.group(1).strip()] = (cm.group(2).strip(), cm.group(3).strip())
         if not m and line.startswith('const ') and line.endswith('= {') and 'promoted[' not in line:
             # crate constant with a body: parsed like a nullary function named `const <NAME>`
-            pm = re.match(r'^const (.+?): (.+?) = \{$', line)
+            pm = re.match(r'^const (.+): ([^:]+?) = \{$', line)
             if pm:
                 m = FN_RE.match('fn const %s() -> %s {' % (pm.group(1), pm.group(2)))
         if not m:
